@@ -811,7 +811,7 @@ def check_C20(ctx):
     srcs = sorted(glob.glob(os.path.join(gen, '*.cc'))) + c20_mpf_units(ctx, os.path.join(ctx.scratch, 'cxxf')) + [os.path.join(VERIF, 'harness/cxx_conv.cc'), os.path.join(VERIF, 'harness/cxx_stream.cc'), os.path.join(VERIF, 'harness/cxx_mpf.cc')]
     def comp(s):
         o = os.path.join(gen, os.path.basename(s) + '.o')
-        return sh(['g++', '-O0', '-w', f'-I{bx}', '-c', s, '-o', o], timeout=900) + (o,)
+        return sh(['g++', '-O1' if os.path.basename(s).startswith('k') and os.path.dirname(s) == gen else '-O0', '-w', f'-I{bx}', '-c', s, '-o', o], timeout=900) + (o,)      # k*.cc: literal-operand trees, optimised (constant shortcuts of mpirxx.h)
     objs = []
     with cf.ThreadPoolExecutor(max_workers=16) as ex:
         for rc, out, o in ex.map(comp, srcs):
